@@ -60,6 +60,20 @@ void apiCase(size_t idx) {
 		if (!checkNow(nif, s, true, what, "permuted-vertex-maps")) return;
 		checkReload(nif, what, "permuted-vertex-maps");
 	}
+	if (idx % 6 == 4 && stripPartitions(nif, rng) > 0) {
+		// the same partitions with their faces stored as triangle strips (degenerate stitching included), as older exporters write
+		// them: a query triangulates them; what is saved afterwards must still be exactly the shape's triangles
+		what += " [partition faces stored as strips]";
+		R_caseDesc(what);
+		R_stat("models_with_strip_partitions");
+		if (rng.coin(2)) checkReload(nif, what, "strip-partitions");   // written as strips, untouched
+		NiVector<BSDismemberSkinInstance::PartitionInfo> pinf0;
+		std::vector<int> tp0;
+		R_phase("GetShapePartitions(strips)");
+		if (!nif.GetShapePartitions(s, pinf0, tp0)) { R_viol("api", "GetShapePartitions", what + ": GetShapePartitions failed on a skinned shape"); return; }
+		checkReload(nif, what, "strip-partitions+GetShapePartitions");
+		if (!checkNow(nif, s, true, what, "strip-partitions+GetShapePartitions")) return;
+	}
 	std::vector<Triangle> tris;
 	s->GetTriangles(tris);
 	// re-assignment of triangles to partitions, including unassigned (-1) and ids past the end
@@ -211,7 +225,7 @@ MonReg reg({"C10", "exploration",
 			"skinned shapes built through the API in OB, FO3, SK and SSE (3..350 vertices, 1..120 triangles, 1..120 bones, 1..8 influences per vertex, tied and distinct weights) and "
 			"the skinned shapes of the real samples. Operations: CreateSkinning+UpdateSkinPartitions, three rounds of GetShapePartitions -> SetShapePartitions with random assignments "
 			"(in range, partly unassigned -1, ids past the end, all unassigned, all in one) -> UpdateSkinPartitions, RemoveEmptyPartitions, DeletePartitions followed by the "
-			"get/set/update recovery, a vertex deletion between an assignment and the next rebuild, SetDefaultPartition, and save+reload. Oracle after each: multiset of partition triangles (rotation-normalised) == shape triangles, vertex map == "
+			"get/set/update recovery, a vertex deletion between an assignment and the next rebuild, SetDefaultPartition, and save+reload; one model in six first has its partition faces re-encoded as triangle strips with degenerate stitching (file-convention counter) and is saved untouched and after a GetShapePartitions query. Oracle after each: multiset of partition triangles (rotation-normalised) == shape triangles, vertex map == "
 			"sorted set of used vertices, mapped triangles translate back, bone count <= 18 (OB/FO3) / 80 (SSE), weights >= 0 summing to 1 or 0, bone slots and partition bones in range, "
 			"counters equal array sizes, dismember list aligned; after a rebuild every partition vertex resolved through the partition's bone table equals the normalised four largest NiSkinData influences. Non-trivial = model that went through all operations.",
 			[] { return realSamples().size() + nApi(); }, run, 12, 300.0, false, false, nullptr});
